@@ -173,6 +173,39 @@ func TestCases(t *testing.T) {
 				shards[i] = fakes.Flatten(p)
 			}
 			emit(n, mm, before, shards)
+			// (3) the same series as an ingestion endpoint may deliver them: the values' tag slices in another order (the key is the
+			//     series' identity; the slice order is not)
+			rev := func(t gostatsd.Tags) gostatsd.Tags {
+				o := make(gostatsd.Tags, len(t))
+				for i, x := range t {
+					o[len(t)-1-i] = x
+				}
+				return o
+			}
+			mm2 := gostatsd.NewMetricMap(false)
+			mm.Counters.Each(func(n, k string, v gostatsd.Counter) { v.Tags = rev(v.Tags); mm2.MergeCounter(n, k, v) })
+			mm.Gauges.Each(func(n, k string, v gostatsd.Gauge) { v.Tags = rev(v.Tags); mm2.MergeGauge(n, k, v) })
+			mm.Timers.Each(func(n, k string, v gostatsd.Timer) {
+				v.Tags, v.Values = rev(v.Tags), append([]float64{}, v.Values...)
+				mm2.MergeTimer(n, k, v)
+			})
+			mm.Sets.Each(func(n, k string, v gostatsd.Set) {
+				v.Tags = rev(v.Tags)
+				m := map[string]struct{}{}
+				for x := range v.Values {
+					m[x] = struct{}{}
+				}
+				v.Values = m
+				mm2.MergeSet(n, k, v)
+			})
+			before2 := fakes.Render(mm2)
+			parts2 := mm2.Split(n)
+			shards2 := make([][]fakes.Series, len(parts2))
+			for i, p := range parts2 {
+				shards2[i] = fakes.Flatten(p)
+			}
+			emit(n, mm2, before2, shards2)
+			res.Hit("tags-in-another-order")
 			// (2) the same batch through a real BackendHandler with n workers
 			h, got := handler(n)
 			h.DispatchMetricMap(ctx, mm)
